@@ -162,7 +162,7 @@ theorem queryOk_of_nonneg (cs : List BcSnap) (h0 : firstAtZero cs = true) (q : S
 /-- **`sm_times` — read times = integration of the file's beat positions over its `#BPMS` segments.**
 For every note data text, every initial offset `t0 = −1000·#OFFSET`, every tempo-change list `cs` (as parsed from
 `#BPMS`) that is well-formed, ascending, starts at beat 0, is grid-compatible and keeps the 4-beat metronome
-(C10's hypotheses; for `.sm` beats on the 1/48 grid they hold, see `sixteenth_gridCompatible`), and every
+(C10's hypotheses; a finite decimal on the 1/48-beat grid is a multiple of 1/16, hence grid-compatible — that step is not proved here, the check evaluates the domain per case), and every
 sorting permutation `np.argsort` may return for the set of distinct positions:
 if `_read_notes` returns, then its notes are exactly the positions stored by the parsing loop, each mapped
 through `timeAt t0 cs` (hold length = `timeAt` tail − `timeAt` head). -/
